@@ -80,6 +80,8 @@ func (x *Exec) generate(fn *ssa.Function) {
 	}
 	fr := x.newFrame(fn, params, fvs, st, nil, nil)
 	fr.isTop = true
+	x.topFrame = fr
+	x.topEnvVars = env
 	fr.names = map[string]ssa.Value{}
 	// vacuity guard: the pre-condition must be satisfiable
 	x.obligeCover(fr, st, "cover", "requires", fn.Pos())
@@ -110,9 +112,7 @@ func (x *Exec) generate(fn *ssa.Function) {
 			}
 			x.oblige(fr, st2, "post", "", fn.Pos(), t, e.Text)
 		}
-		if c.Pure || c.HasModifies {
-			x.frameCheck(fr, st2, c, ce, fn.Pos())
-		}
+		x.frameCheckTop(st2)
 	})
 }
 
@@ -147,6 +147,17 @@ func (x *Exec) obligeAt(fr *Frame, st *State, kind, target, pos string, goal *Te
 		x.oblOrder = append(x.oblOrder, ob)
 	}
 	ob.Cases = append(ob.Cases, Case{PC: st.PC(), Goal: goal})
+}
+
+// frameCheckTop checks the stores of the current path against the frame of the function under verification.
+func (x *Exec) frameCheckTop(st *State) {
+	fr := x.topFrame
+	c := x.cs.forFunc(x.top)
+	if c == nil || !(c.Pure || c.HasModifies) || st.dry != nil {
+		return
+	}
+	ce := &CEnv{x: x, st: st, old: fr.entry, vars: x.topEnvVars, pkg: x.cs.pkgOf(x.top), fr: fr, entryAllocW: fr.entry.allocW}
+	x.frameCheck(fr, st, c, ce, x.top.Pos())
 }
 
 // frameCheck: every store performed hits fresh memory or a location named by the modifies clause.
